@@ -31,10 +31,7 @@ def is_vec(ty): return ty.startswith('alloc::vec::Vec<')
 def vector_roles():
     """the entry / element vectors the layout specification names (spec/layouts.py VECTORS, ENTRY_VECTORS): in a struct
     with exactly one private Vec field that field is the vector, whatever it is called"""
-    try:
-        import layouts as L
-    except ImportError:
-        return {}
+    import layouts as L
     out = {}
     pairs = [(k[0], v) for k, v in L.VECTORS.items()] + list(L.ENTRY_VECTORS.items())
     for ty, path in pairs:
